@@ -84,7 +84,9 @@ void harness(void) { ghost_reset(); Core* s; Core* c; Impl(s, c); if (g.zero) VF
     b_r = find_body(repo, F_AA, r'bool\s+await_ready\s*\(\s*\)\s*const\s*noexcept', 'MultiAwaitAwaiter::await_ready', within=W)
     b_s = find_body(repo, F_AA, r'bool\s+await_suspend\s*\(', 'MultiAwaitAwaiter::await_suspend', within=W)
     cr = Rewriter('MultiAwaitAwaiter::await_ready', pre=[(r'this->Get\(\s*std::memory_order_(\w+)\s*\)', r'CounterGet(self, mo_\1)', 0)]).rewrite(b_r.text)
-    cs = Rewriter('MultiAwaitAwaiter::await_suspend', pre=[(r'this->next\s*=\s*&handle\.promise\(\)\s*;', 'self->next = promise;', 0), (r'this->SubEqual\(', 'SubEqual(self, ', 0)]).rewrite(b_s.text)
+    # the coroutine's promise: `handle.promise()` directly or through a reference alias named promise (the C parameter `promise` is the pointer to it)
+    HP = [(r'(?:auto|Promise)\s*&\s*promise\s*=\s*handle\.promise\(\)\s*;', '', 0), (r'&\s*handle\.promise\(\)', 'promise', 0), (r'(?<![\w&])&\s*promise\b', 'promise', 0)]
+    cs = Rewriter('MultiAwaitAwaiter::await_suspend', pre=HP + [(r'this->SubEqual\(', 'SubEqual(self, ', 0)]).rewrite(b_s.text)
     src = COMMON + '''unsigned long g_cnt; int g_get_mo;
 unsigned long CounterGet(Core* self, int mo) __CPROVER_assigns(g_get_mo) __CPROVER_ensures(RET == g_cnt && g_get_mo == mo);
 int await_ready(Core* self) __CPROVER_assigns(g_get_mo)
